@@ -25,3 +25,37 @@ Qed.
 
 Lemma all_kinds1 : forall (good : kind -> bool), forallb good all_kinds = true -> forall k, good k = true.
 Proof. intros good H k. rewrite forallb_forall in H. exact (H k (all_kinds_complete k)). Qed.
+
+(* a boolean fact checked on every (parent, position class, child) triple of the enumerations *)
+Definition table_ok (good : kind -> nat -> kind -> bool) : bool :=
+  forallb (fun p => forallb (fun i => forallb (fun c => good p i c) all_kinds) all_pos) all_kinds.
+
+Lemma table_ok_spec : forall good, table_ok good = true -> forall p i c, In i all_pos -> good p i c = true.
+Proof.
+  intros good H p i c Hi. unfold table_ok in H.
+  rewrite forallb_forall in H. specialize (H p (all_kinds_complete p)).
+  rewrite forallb_forall in H. specialize (H i Hi).
+  rewrite forallb_forall in H. exact (H c (all_kinds_complete c)).
+Qed.
+
+Lemma npos_le_3 : forall p, npos p <= 3.
+Proof. destruct p; simpl; lia. Qed.
+
+Lemma allowed_pos : forall p i c, allowed p i c = true -> In i all_pos.
+Proof.
+  intros p i c H. unfold allowed in H. apply andb_prop in H. destruct H as [H _].
+  apply Nat.ltb_lt in H. pose proof (npos_le_3 p). unfold all_pos. simpl.
+  destruct i as [|[|[|i]]]; auto; lia.
+Qed.
+
+Lemma ref_needs_pos : forall p i c, ref_needs p i c = true -> In i all_pos.
+Proof. intros p i c H. unfold ref_needs in H. apply andb_prop in H. destruct H as [H _]. eapply allowed_pos; eauto. Qed.
+
+
+(* the reference rule never asks for parentheses around an item *)
+Lemma ref_needs_item : forall p i c, expr_kindb c = false -> ref_needs p i c = false.
+Proof.
+  intros p i c H. destruct (ref_needs p i c) eqn:E; [|reflexivity].
+  assert (T : table_ok (fun p i c => expr_kindb c || negb (ref_needs p i c)) = true) by (vm_compute; reflexivity).
+  pose proof (table_ok_spec _ T p i c (ref_needs_pos _ _ _ E)) as H0. cbv beta in H0. rewrite H, E in H0. discriminate H0.
+Qed.
